@@ -38,7 +38,10 @@ def main():
             out["tests_tail"] = ot.strip().splitlines()[-1] if ot.strip() else ""
             out["tests_51_pass"] = bool(re.match(r"^51 passed", out["tests_tail"])) and "failed" not in out["tests_tail"] and "error" not in out["tests_tail"]
             t0 = time.time()
-            rcc, oc = sh(f"cd {ROOT} && VERIF_REPO={wt} VERIF_EVIDENCE_DIR=/tmp/ev_seed ./check {pid} --tier quick 2>&1 | grep -v '^validation loss' | tail -3")
+            coqcopy = f"/tmp/coq_seed_{name}_{os.getpid()}"
+            sh(f"rm -rf {coqcopy}; cp -r {ROOT}/coq {coqcopy}")
+            rcc, oc = sh(f"cd {ROOT} && VERIF_REPO={wt} VERIF_COQ={coqcopy} VERIF_EVIDENCE_DIR=/tmp/ev_seed ./check {pid} --tier quick 2>&1 | grep -v '^validation loss' | tail -3")
+            sh(f"rm -rf {coqcopy}")
             out["check_exit"] = rcc
             out["check_output"] = oc.strip().splitlines()[-2:]
             out["check_wall_s"] = round(time.time() - t0, 1)
